@@ -242,6 +242,7 @@ func c06Entries() []c06Entry {
 			}
 			srcs := []any{src, map[string]any{"a": src, "c": []any{src, 1.5, "12", true, nil}}, c06Big{A: 3, B: "4", C: []int{5}, U8: 6}, []any{src}, map[string]int{"a": 7},
 				zoo.EmbShadow{}, &zoo.EmbPtr{}, zoo.Tags{Plain: 1}, map[string]zoo.Tags{"a": {}}, []zoo.EmbPtr{{}}, map[int]any{1: src}, [2]any{src, nil}, time.Now(), nil,
+				[]any{1.0, nil, 3.0}, map[string]any{"a": nil, "k": nil, "c": []any{nil}}, []*int{nil, new(int)}, map[string]any{"a": map[string]any{"b": nil}, "P": nil, "Q": nil},
 				struct {
 					A  uint8
 					B  float32
@@ -295,7 +296,12 @@ func c06Entries() []c06Entry {
 					}
 					var d32 time.Time
 					for _, dst := range []any{&d1, &d2, &d3, &d4, &d5, &d6, &d7, &d8, &d9, &d10, &d11, &d12, &d13, &d14, &d15, &d16,
-						&d17, &d18, &d19, &d20, &d21, &d22, &d23, &d24, &d25, &d26, &d27, &d28, &d29, &d30, &d31, &d32, d9, nil, 5} {
+						&d17, &d18, &d19, &d20, &d21, &d22, &d23, &d24, &d25, &d26, &d27, &d28, &d29, &d30, &d31, &d32, d9, nil, 5,
+						// pointers at inner positions: a null or a nil interface in the source lands on them
+						new([]*int), new(map[string]*int), new([2]*string), new(struct {
+							P *int
+							Q **string
+						}), new([]*c06Big), new(map[string][]*float64), new([]any), new([]*any)} {
 						p.Get(sv, dst)
 					}
 				}
